@@ -692,6 +692,156 @@ Section SanitizeProofs.
     apply Hne. exact (NoDup_map_In_inj _ _ _ _ _ _ Hl H1 H2 E).
   Qed.
 
+  (* every named entry created by one call, derived inline names included *)
+  Lemma add_derived_ext : forall c n, exists r, add_derived c n = c ++ r.
+  Proof.
+    intros c n. unfold add_derived. destruct (umem n c).
+    - exists []. rewrite app_nil_r. reflexivity.
+    - exists [n]. reflexivity.
+  Qed.
+
+  Lemma fold_add_derived_ext : forall l c, exists r, fold_left add_derived l c = c ++ r.
+  Proof.
+    induction l as [|n l IH]; intro c; cbn [fold_left].
+    - exists []. rewrite app_nil_r. reflexivity.
+    - destruct (add_derived_ext c n) as [r1 E1]. destruct (IH (add_derived c n)) as [r2 E2].
+      exists (r1 ++ r2). rewrite E2, E1, app_assoc. reflexivity.
+  Qed.
+
+  Lemma convert_def_ext : forall patch c dp, exists r, convert_def cls patch c dp = c ++ r.
+  Proof.
+    intros patch c dp. unfold convert_def.
+    destruct (fold_add_derived_ext (List.map (derived_name cls patch (fst dp)) (snd dp)) c) as [r E].
+    exists (r ++ [type_patch patch (sanitize cls (fst dp) Pascal)]). rewrite E, app_assoc. reflexivity.
+  Qed.
+
+  Lemma fold_convert_def_ext : forall patch l c, exists r, fold_left (convert_def cls patch) l c = c ++ r.
+  Proof.
+    intros patch. induction l as [|dp l IH]; intro c; cbn [fold_left].
+    - exists []. rewrite app_nil_r. reflexivity.
+    - destruct (convert_def_ext patch c dp) as [r1 E1].
+      destruct (IH (convert_def cls patch c dp)) as [r2 E2].
+      exists (r1 ++ r2). rewrite E2, E1, app_assoc. reflexivity.
+  Qed.
+
+  Lemma NoDup_app_l : forall (A : Type) (l r : list A), NoDup (l ++ r) -> NoDup l.
+  Proof.
+    intros A l r. induction l as [|a l IH]; intro H; [constructor|].
+    cbn [app] in H. inversion H as [|? ? Ha Hn]; subst. constructor.
+    - intro Hin. apply Ha. apply in_or_app. left. exact Hin.
+    - apply IH. exact Hn.
+  Qed.
+
+  Lemma fold_add_derived_In : forall l c n,
+      In n l -> In n (fold_left add_derived l c).
+  Proof.
+    induction l as [|a l IH]; intros c n Hn; [destruct Hn|]. cbn [fold_left].
+    destruct Hn as [->|Hn]; [|apply IH; exact Hn].
+    destruct (fold_add_derived_ext l (add_derived c n)) as [r E]. rewrite E.
+    apply in_or_app. left. unfold add_derived. destruct (umem n c) eqn:Em.
+    - apply umem_In. exact Em.
+    - apply in_or_app. right. left. reflexivity.
+  Qed.
+
+  Lemma convert_def_has_derived : forall patch c d ps p,
+      In p ps -> In (derived_name cls patch d p) (convert_def cls patch c (d, ps)).
+  Proof.
+    intros patch c d ps p Hp. unfold convert_def. cbn [fst snd]. apply in_or_app. left.
+    apply fold_add_derived_In. apply in_map. exact Hp.
+  Qed.
+
+  Lemma fold_convert_def_has_derived : forall patch l c d ps p,
+      In (d, ps) l -> In p ps ->
+      In (derived_name cls patch d p) (fold_left (convert_def cls patch) l c).
+  Proof.
+    intros patch. induction l as [|dp l IH]; intros c d ps p Hd Hp; [destruct Hd|]. cbn [fold_left].
+    destruct Hd as [->|Hd]; [|apply IH with (ps := ps); assumption].
+    destruct (fold_convert_def_ext patch l (convert_def cls patch c (d, ps))) as [r E]. rewrite E.
+    apply in_or_app. left. apply convert_def_has_derived. exact Hp.
+  Qed.
+
+  (* without inline types the created names are the definition-level names *)
+  Lemma fold_convert_def_plain : forall patch defs c,
+      fold_left (convert_def cls patch) (List.map (fun d => (d, [])) defs) c =
+      c ++ List.map (fun d => type_patch patch (sanitize cls d Pascal)) defs.
+  Proof.
+    intros patch. induction defs as [|d defs IH]; intro c; cbn [List.map fold_left].
+    - rewrite app_nil_r. reflexivity.
+    - rewrite IH. unfold convert_def. cbn [fst snd List.map fold_left]. rewrite <- app_assoc. reflexivity.
+  Qed.
+
+  Theorem add_batch_full_plain : forall patch defs title,
+      add_batch_full cls patch (List.map (fun d => (d, [])) defs)
+                     (option_map (fun t => (t, [])) title)
+      = add_batch cls patch defs title.
+  Proof.
+    intros patch defs title. unfold add_batch_full, add_batch.
+    assert (E : created_names cls patch (List.map (fun d => (d, [])) defs)
+                              (option_map (fun t => (t, [])) title)
+                = batch_type_names cls patch defs title).
+    { unfold created_names, batch_type_names. rewrite fold_convert_def_plain. cbn [app].
+      destruct title as [t|]; cbn [option_map].
+      - unfold convert_def. cbn [fst snd List.map fold_left]. reflexivity.
+      - rewrite app_nil_r. reflexivity. }
+    rewrite E. reflexivity.
+  Qed.
+
+  (* every named entry created by the call has its own name, or Err *)
+  Theorem add_batch_full_distinct_or_err : forall patch defs root ids,
+      add_batch_full cls patch defs root = Ok ids ->
+      NoDup ids /\ ids = created_names cls patch defs root.
+  Proof.
+    intros patch defs root ids H. unfold add_batch_full in H.
+    destruct (unique (created_names cls patch defs root)) eqn:E; [|discriminate].
+    injection H as <-. split; [apply unique_NoDup; exact E|reflexivity].
+  Qed.
+
+  (* the name of the root equal to the derived name of an inline type of a
+     definition of the call: Err (finding C08-F5, fixed by 40183ea) *)
+  Theorem add_batch_full_err_root_vs_derived : forall patch defs d ps p t tps,
+      In (d, ps) defs -> In p ps ->
+      derived_name cls patch d p = type_patch patch (sanitize cls t Pascal) ->
+      add_batch_full cls patch defs (Some (t, tps)) = Err.
+  Proof.
+    intros patch defs d ps p t tps Hd Hp E. unfold add_batch_full.
+    destruct (unique (created_names cls patch defs (Some (t, tps)))) eqn:U; [|reflexivity].
+    exfalso. apply unique_NoDup in U. unfold created_names in U.
+    set (c := fold_left (convert_def cls patch) defs []) in U.
+    unfold convert_def in U. cbn [fst snd] in U.
+    apply NoDup_remove_2 in U. apply U. rewrite app_nil_r. rewrite <- E.
+    destruct (fold_add_derived_ext (List.map (derived_name cls patch t) tps) c) as [r Er]. rewrite Er.
+    apply in_or_app. left. unfold c. apply fold_convert_def_has_derived with (ps := ps); assumption.
+  Qed.
+
+  (* the name of a LATER definition equal to the derived name of an inline type
+     of an earlier one: Err *)
+  Theorem add_batch_full_err_key_vs_derived : forall patch l1 d ps l2 d2 ps2 l3 p root,
+      In p ps ->
+      derived_name cls patch d p = type_patch patch (sanitize cls d2 Pascal) ->
+      add_batch_full cls patch (l1 ++ (d, ps) :: l2 ++ (d2, ps2) :: l3) root = Err.
+  Proof.
+    intros patch l1 d ps l2 d2 ps2 l3 p root Hp E. unfold add_batch_full.
+    destruct (unique (created_names cls patch (l1 ++ (d, ps) :: l2 ++ (d2, ps2) :: l3) root)) eqn:U; [|reflexivity].
+    exfalso. apply unique_NoDup in U. unfold created_names in U.
+    rewrite fold_left_app in U. cbn [fold_left] in U. rewrite fold_left_app in U. cbn [fold_left] in U.
+    set (c1 := convert_def cls patch (fold_left (convert_def cls patch) l1 []) (d, ps)) in U.
+    set (c2 := fold_left (convert_def cls patch) l2 c1) in U.
+    set (c3 := convert_def cls patch c2 (d2, ps2)) in U.
+    assert (Hbad : ~ NoDup c3).
+    { intro Hn. unfold c3, convert_def in Hn. cbn [fst snd] in Hn.
+      apply NoDup_remove_2 in Hn. apply Hn. rewrite app_nil_r. rewrite <- E.
+      destruct (fold_add_derived_ext (List.map (derived_name cls patch d2) ps2) c2) as [r Er]. rewrite Er.
+      apply in_or_app. left. unfold c2.
+      destruct (fold_convert_def_ext patch l2 c1) as [r2 Er2]. rewrite Er2.
+      apply in_or_app. left. unfold c1. apply convert_def_has_derived. exact Hp. }
+    apply Hbad.
+    destruct (fold_convert_def_ext patch l3 c3) as [r3 E3]. rewrite E3 in U.
+    destruct root as [rt|].
+    - destruct (convert_def_ext patch (c3 ++ r3) rt) as [r4 E4]. rewrite E4 in U.
+      apply NoDup_app_l in U. apply NoDup_app_l in U. exact U.
+    - apply NoDup_app_l in U. exact U.
+  Qed.
+
   (* ---------------------------------------------------------------- *)
   (* replacement lookup                                                *)
   (* ---------------------------------------------------------------- *)
@@ -808,6 +958,16 @@ Theorem batch_witnesses :
   add_batch ascii_classes [] [ustr "my-type"] (Some (ustr "my other type")) = Ok [ustr "MyType"; ustr "MyOtherType"] /\
   add_batch ascii_classes [(ustr "Foo", ustr "Bar")] [ustr "foo"; ustr "Bar"] None = Err /\
   add_batch ascii_classes [(ustr "Foo", ustr "Baz")] [ustr "foo"; ustr "Bar"] None = Ok [ustr "Baz"; ustr "Bar"].
+Proof. repeat split; vm_compute; reflexivity. Qed.
+
+(* regression cases of 40183ea (former finding C08-F5) *)
+Theorem batch_full_witnesses :
+  add_batch_full ascii_classes [] [(ustr "Foo", [ustr "bar"])] (Some (ustr "foo bar", [])) = Err /\
+  add_batch_full ascii_classes [] [(ustr "Foo", [ustr "bar"]); (ustr "FooBar", [])] None = Err /\
+  add_batch_full ascii_classes [] [(ustr "Foo", [ustr "bar"])] (Some (ustr "foo bar q", []))
+    = Ok [ustr "FooBar"; ustr "Foo"; ustr "FooBarQ"] /\
+  add_batch_full ascii_classes [] [(ustr "ZooBar", []); (ustr "zoo", [ustr "bar"])] None
+    = Ok [ustr "ZooBar"; ustr "Zoo"].
 Proof. repeat split; vm_compute; reflexivity. Qed.
 
 (* variants: the X fallback and the panic are both reachable *)
